@@ -47,3 +47,68 @@ func TestVerifReplayC14CLI(t *testing.T) {
 		fmt.Println("REPLAY: not-reproduced (real code satisfies the property on this input)")
 	}
 }
+
+func TestVerifReplayC14CLIMulti(t *testing.T) {
+	data, err := os.ReadFile(os.Getenv("VERIF_SCENARIO"))
+	if err != nil {
+		t.Skip("no scenario")
+	}
+	var sc struct {
+		Args   []int64                `json:"args"`
+		Inputs map[string]interface{} `json:"inputs"`
+	}
+	json.Unmarshal(data, &sc)
+	mode, second := int(sc.Args[0]), int(sc.Args[1])
+	fails := func(cmd string) bool {
+		for k, v := range sc.Inputs {
+			if strings.HasPrefix(k, "fails."+cmd+".") {
+				if b, _ := v.(bool); b {
+					return true
+				}
+			}
+		}
+		return false
+	}
+	st := func(cmd string) int {
+		if fails(cmd) {
+			return 1
+		}
+		return 0
+	}
+	dir := t.TempDir()
+	trace := filepath.Join(dir, "trace")
+	cfg := fmt.Sprintf("contexts:\n  ctx:\n    up: ['echo up >> %s']\n    down: ['echo down >> %s']\ntasks:\n  t1:\n    context: ctx\n    command: ['echo t1 >> %s; exit %d']\n  t2:\n    context: ctx\n    command: ['echo t2 >> %s; exit %d']\npipelines:\n  p1:\n    - task: t2\n",
+		trace, trace, trace, st("t1-cmd"), trace, st("t2-cmd"))
+	cfgFile := filepath.Join(dir, "tasks.yaml")
+	os.WriteFile(cfgFile, []byte(cfg), 0o644)
+	args := []string{"taskctl", "--raw", "--quiet", "-c", cfgFile}
+	switch mode {
+	case 1:
+		args = append(args, "run")
+	case 2:
+		args = append(args, "run", "task")
+	}
+	secondName := "t2"
+	if second == 1 {
+		secondName = "p1"
+	}
+	args = append(args, "t1", secondName)
+	old := os.Stdout
+	devnull, _ := os.OpenFile(os.DevNull, os.O_WRONLY, 0)
+	os.Stdout = devnull
+	runErr := makeApp().Run(args)
+	os.Stdout = old
+	raw, _ := os.ReadFile(trace)
+	got := strings.Fields(string(raw))
+	want := []string{"up", "t1"}
+	if !fails("t1-cmd") {
+		want = append(want, "t2")
+	}
+	want = append(want, "down")
+	fmt.Printf("REPLAY: %v -> trace %v, expected %v, err=%v\n", args[5:], got, want, runErr)
+	if strings.Join(got, " ") != strings.Join(want, " ") {
+		fmt.Println("REPLAY: reproduced: with several targets sharing a context, up/down did not run exactly once around all of them")
+	} else {
+		fmt.Println("REPLAY: not-reproduced (real code satisfies the property on this input)")
+	}
+}
